@@ -8,6 +8,8 @@
 // in the abyss); no two asks are handed the same reply address.
 // The Coq side (MV.C07.FutRun) recomputes, for every observed (ordering class, behaviour), the set
 // of outcomes the machine MV.C07.FutModel allows and compares.
+// Two more sub-harnesses write their own summaries: "life" (life.go: the id source over restarts and
+// re-creation) and "leak" (leak.go: asks with 1 ns .. 3 us timeouts, registry enumerated afterwards).
 package main
 
 import (
@@ -716,6 +718,10 @@ func gen(rng *vh.RNG, tier string) []*Case {
 }
 
 func main() {
+	if p := os.Getenv("C07_LEAK_ONE"); p != "" { // child of runLeakSafe (leak.go): one case, result on stdout
+		leakChildMain(p)
+		return
+	}
 	if p := os.Getenv("C07_ONE"); p != "" { // child of runCaseSafe: one case, result on stdout
 		var c Case
 		b, err := os.ReadFile(p)
@@ -729,6 +735,23 @@ func main() {
 	}
 	f := vh.ParseFlags()
 	if f.Replay != "" {
+		var kc KCase
+		vh.LoadReplayCase(f.Replay, &kc)
+		if kc.Stress != "" { // a case of the sub-harness "leak" (leak.go): the interleaving is the runtime's, try a few times
+			attempts := 20
+			var viol []vh.Violation
+			done := 0
+			for i := 0; i < attempts && len(viol) == 0; i++ {
+				viol = runLeakSafe(&kc, filepath.Dir(f.Replay))
+				done++
+			}
+			b, _ := json.MarshalIndent(map[string]interface{}{"case": kc, "monitor_hits": viol, "attempts": done}, "", " ")
+			fmt.Println(string(b))
+			if len(viol) > 0 {
+				os.Exit(1)
+			}
+			return
+		}
 		var lc LCase
 		vh.LoadReplayCase(f.Replay, &lc)
 		if lc.Family != "" { // a script of the sub-harness "life" (life.go)
@@ -764,7 +787,13 @@ func main() {
 	if f.N > 0 && f.N < len(cases) {
 		cases = cases[:f.N]
 	}
-	if os.Getenv("C07_SUBS") == "life" { // development aid: only the sub-harness "life"
+	subs := os.Getenv("C07_SUBS") // "" = all; "life" / "leak": only that sub-harness (development aid; "leak" is also the
+	// failing-input search of checks/c07.py when the creation-order tie is broken)
+	if subs == "leak" {
+		runLeakSub(f)
+		return
+	}
+	if subs == "life" {
 		cases = nil
 	}
 	for _, c := range cases {
@@ -792,4 +821,18 @@ func main() {
 	}
 	runLifeAll(lout, lcases)
 	lout.Close()
+
+	// sub-harness "leak": tiny timeouts against a silent target, registry enumerated afterwards, see leak.go
+	runLeakSub(f)
+}
+
+func runLeakSub(f vh.Flags) {
+	kout := vh.NewOut(f.Out, "leak", "", "", "", f.Seed,
+		"asks with timeouts of 1 ns .. 3 us (every route at least once with 1 ns) to a target that never answers, issued by K in {4,8,16} concurrent askers (GOMAXPROCS >= 4) through ActorSystem.FutureAsk / ActorContext.FutureAsk in K actors / future.New on the system's registry; 3 000-7 500 asks per asker (thorough 10 000-25 000); every ask must complete with the timeout error, then the registry is enumerated: a reply address of a completed ask still registered after a 2 s grace period is C07:address-leaked-after-completion; each case in a child process; non-trivial = K >= 2 askers on >= 2 Ps with a timeout <= 1 us; distinct by hash of configuration + observed counters; not evaluated in Coq (search oracle for MV.C07.RegProofs.init_first_leaks)")
+	kcases := genLeak(vh.NewRNG(f.Seed^0x1eac07), f.Tier)
+	if f.N > 0 && f.N < len(kcases) {
+		kcases = kcases[:f.N]
+	}
+	runLeakAll(kout, kcases, f.Out)
+	kout.Close()
 }
